@@ -98,6 +98,13 @@ def _callee_ok(fn, private_only=True):
   a = fn.args
   if a.vararg or a.kwarg or a.posonlyargs:
     return False
+  # a default is evaluated once, when the function is defined: only constant
+  # defaults may be re-evaluated at the call site
+  for d in list(a.defaults) + [x for x in a.kw_defaults if x is not None]:
+    if not all(isinstance(x, (ast.Constant, ast.Name, ast.Attribute, ast.Load,
+                              ast.UnaryOp, ast.USub, ast.Tuple))
+               for x in ast.walk(d)):
+      return False
   for d in fn.decorator_list:
     if not (isinstance(d, ast.Name) and d.id in ('staticmethod',
                                                  'classmethod')):
